@@ -87,7 +87,7 @@ struct AcqCase {
 	poisoned: bool,
 }
 
-fn has_poisonable(s: &Spec) -> bool {
+pub fn has_poisonable(s: &Spec) -> bool {
 	match s {
 		Spec::PR(_) | Spec::PM(_) | Spec::PPM | Spec::PPR | Spec::Pois(_) => true,
 		Spec::Coll(_, ms) => ms.iter().any(has_poisonable),
@@ -542,6 +542,10 @@ pub fn c08_inputs(thorough: bool) -> Vec<Spec> {
 			out.push(Spec::Native(Native::OwnedDescIn(k, n)));
 		}
 	}
+	out.push(Spec::Native(Native::VecsFromRef));
+	for via in [1u8, 2] {
+		out.push(Spec::Native(Native::MutRefsVia(1, 3, via)));
+	}
 	for k in [Kind::Boxed, Kind::Ref] {
 		out.push(Spec::Native(Native::VecsNew(k)));
 		out.push(Spec::Native(Native::VecsRefs(k)));
@@ -632,17 +636,23 @@ pub fn check_c08(tier: &str) -> ! {
 			for a in 0..sq.len() {
 				for b in a + 1..sq.len() {
 					let (x, y) = (sq[a], sq[b]);
-					if x >= ARENA_TOTAL || y >= ARENA_TOTAL {
-						// fresh locks exist only in this input's world: their ids mean nothing across inputs
-						// (their order is compared across this input's own acquisitions above)
+					// fresh locks exist only in one input's world: their ids mean nothing across inputs (their order
+					// is compared across that input's own acquisitions above) - except for the inputs built over the
+					// one shared `[Vec; 2]` data set, whose locks are the same objects at the same relative addresses
+					let class: u8 = if x < ARENA_TOTAL && y < ARENA_TOTAL {
+						0
+					} else if matches!(s, Spec::Native(Native::VecsNew(_) | Native::VecsRefs(_) | Native::VecsFromRef)) {
+						1
+					} else {
 						continue;
-					}
+					};
+					let (x, y) = (x | (class as u32) << 24, y | (class as u32) << 24);
 					pairs_checked += 1;
 					if let Some((j, other)) = order.get(&(y, x)) {
 						rep.violation(Viol {
 							prop: "C08".into(),
 							key: format!("order-disagreement|{}", s.shape_key()),
-							detail: format!("{} takes L{} before L{} (sequence {:?}) but {} takes them the other way round (sequence {:?})", s.describe(), x, y, sq, inputs[*j].describe(), other),
+							detail: format!("{} takes L{} before L{} (sequence {:?}) but {} takes them the other way round (sequence {:?})", s.describe(), x & 0xff_ffff, y & 0xff_ffff, sq, inputs[*j].describe(), other),
 							replay: json!({"kind": "seq-order-pair", "spec_a": s, "spec_b": inputs[*j]}),
 						});
 					}
@@ -693,13 +703,14 @@ pub enum NonAcq {
 	PoisonQueriesPoisoned,
 }
 
-struct NaCase {
-	spec: usize,
-	assign: Vec<u8>,
-	holder: Holder,
-	op: NonAcq,
-	policy: Policy,
-	queued_writer: bool,
+#[derive(Clone, Debug)]
+pub struct NaCase {
+	pub spec: usize,
+	pub assign: Vec<u8>,
+	pub holder: Holder,
+	pub op: NonAcq,
+	pub policy: Policy,
+	pub queued_writer: bool,
 }
 
 fn run_nonacq(s: &Spec, t: Option<&Target<'_>>, w: &World<'_>, op: NonAcq) {
@@ -840,133 +851,7 @@ pub fn check_c17(tier: &str) -> ! {
 	}
 	let outs = par_cases(&cases, |_, c| {
 		let s = &specs[c.spec];
-		let o = seq::case(c.policy, false, |w, ctl| {
-			let t = w.build(s).expect("probed");
-			ctl.init(w);
-			if c.op == NonAcq::PoisonQueriesPoisoned {
-				poison_everything(&t, w);
-			}
-			let held_leaves: Vec<(u32, u8)> = t.leaves.iter().copied().zip(c.assign.iter().copied()).filter(|(_, v)| *v != 0).collect();
-			let check = |ctl: &SeqCtl, before: u64| {
-				let after = ctl.table_fp();
-				if after != before {
-					rt::violation("C17", format!("nonacq-disturbs|{}|{:?}", s.shape_key(), c.op), format!("{:?} on {} changed the hold state to: {}", c.op, s.describe(), ctl.table_string()));
-				}
-			};
-			match c.holder {
-				Holder::Foreign => {
-					apply_assignment(ctl, &t.leaves, &c.assign);
-					if c.queued_writer {
-						for (l, v) in &held_leaves {
-							if *v == 1 {
-								ctl.queue_writer(*l);
-							}
-						}
-					}
-					let before = ctl.table_fp();
-					ctl.arm_counting();
-					run_nonacq(s, Some(&t), w, c.op);
-					let n = ctl.disarm();
-					check(ctl, before);
-					n
-				}
-				Holder::OwnGuard | Holder::OwnScoped => {
-					let write = c.assign.iter().all(|v| *v == 2);
-					let key = ThreadKey::get().expect("clean");
-					if c.holder == Holder::OwnGuard {
-						let g = if write { t.coll.lock(key) } else { t.coll.read(key) };
-						let before = ctl.table_fp();
-						ctl.arm_counting();
-						run_nonacq(s, Some(&t), w, c.op);
-						rt::begin_call(CallKind::NonAcquiring, false, format!("{}::Debug(guard) #{}", t.shape, t.desc));
-						let d = g.debug();
-						rt::end_call();
-						assert!(!d.is_empty());
-						let n = ctl.disarm();
-						check(ctl, before);
-						drop(g);
-						n
-					} else {
-						let mut cnt = 0;
-						let mut f = |_v: &dyn crate::world::Visit| {
-							let before = ctl.table_fp();
-							ctl.arm_counting();
-							rt::set_call_kind(CallKind::Body);
-							run_nonacq(s, Some(&t), w, c.op);
-							cnt = ctl.disarm();
-							check(ctl, before);
-							rt::begin_call(CallKind::Release, false, "holder".into());
-						};
-						rt::begin_call(CallKind::Acquire, false, "holder".into());
-						t.coll.scoped(write, false, crate::world::KeyArg::Owned(key), &mut f);
-						rt::end_call();
-						cnt
-					}
-				}
-				_ => {
-					// the caller itself holds the non-free leaves through a holder collection (arena leaves only)
-					let write = held_leaves[0].1 == 2;
-					let members: Vec<Spec> = held_leaves.iter().filter_map(|(l, _)| leaf_spec(*l)).collect();
-					let mut uniq = vec![];
-					for m in members {
-						if !uniq.contains(&m) {
-							uniq.push(m);
-						}
-					}
-					let hs = if uniq.iter().all(|m| m.sharable()) || write { Spec::Coll(Kind::Boxed, uniq) } else { return 0 };
-					if !write && !hs.sharable() {
-						return 0;
-					}
-					let Some(ht) = w.build(&hs) else { return 0 };
-					ctl.init(w);
-					// owned units hold all their leaves: skip assignments that split a unit
-					let hl: BTreeSet<u32> = ht.leaves.iter().copied().collect();
-					let want: BTreeSet<u32> = held_leaves.iter().map(|(l, _)| *l).collect();
-					if hl != want {
-						return 0;
-					}
-					let key = ThreadKey::get().expect("clean");
-					let n;
-					match c.holder {
-						Holder::SelfGuard | Holder::SelfLeaked => {
-							let g = if write { ht.coll.lock(key) } else { ht.coll.read(key) };
-							let before = ctl.table_fp();
-							ctl.arm_counting();
-							run_nonacq(s, Some(&t), w, c.op);
-							// Debug of the live guard itself is a non-acquiring operation too
-							rt::begin_call(CallKind::NonAcquiring, false, format!("{}::Debug(guard) #{}", ht.shape, ht.desc));
-							let d = g.debug();
-							rt::end_call();
-							assert!(!d.is_empty());
-							n = ctl.disarm();
-							check(ctl, before);
-							if c.holder == Holder::SelfLeaked {
-								std::mem::forget(g);
-							} else {
-								drop(g);
-							}
-						}
-						_ => {
-							let mut cnt = 0;
-							let mut f = |_v: &dyn crate::world::Visit| {
-								let before = ctl.table_fp();
-								ctl.arm_counting();
-								rt::set_call_kind(CallKind::Body);
-								run_nonacq(s, Some(&t), w, c.op);
-								cnt = ctl.disarm();
-								check(ctl, before);
-								rt::begin_call(CallKind::Release, false, "holder".into());
-							};
-							rt::begin_call(CallKind::Acquire, false, "holder".into());
-							ht.coll.scoped(write, false, crate::world::KeyArg::Owned(key), &mut f);
-							rt::end_call();
-							n = cnt;
-						}
-					}
-					n
-				}
-			}
-		});
+		let o = run_nonacq_case(s, c, false);
 		let mut violations = o.violations;
 		if o.outcome != "ok" {
 			violations.push(Violation { prop: "C17", key: format!("nonacq-{}|{}|{:?}", o.outcome.split(':').next().unwrap(), s.shape_key(), c.op), detail: format!("{:?} on {} with leaf states {:?} held by {:?} ended with {}", c.op, s.describe(), c.assign, c.holder, o.outcome) });
@@ -1174,6 +1059,12 @@ fn owned_accessor_cases(rep: &mut Report) {
 // ------------------------------------------------------------------------------------------
 
 pub fn c11_nested_unwind(rep: &mut Report, thorough: bool) {
+	nested_unwind_sweep(rep, thorough, "C11")
+}
+
+/// The same sweep reported under `prop`: the facts it checks (an unwound scoped call has released everything, exactly
+/// once, and the key is usable again) are clauses of C03 and C05 as well as of C11.
+pub fn nested_unwind_sweep(rep: &mut Report, thorough: bool, prop: &'static str) {
 	let mut specs = vec![Spec::R(0), Spec::M(0), Spec::PR(0), Spec::PM(0), Spec::OW(0)];
 	for k in KINDS {
 		specs.push(Spec::Coll(k, vec![Spec::R(1), Spec::R(0)]));
@@ -1207,50 +1098,7 @@ pub fn c11_nested_unwind(rep: &mut Report, thorough: bool) {
 		}
 	}
 	let outs = par_cases(&cases, |_, c| {
-		let s = &specs[c.spec];
-		let o = seq::case(Policy::RP, false, |w, ctl| {
-			let t = w.build(s).expect("duplicate-free");
-			ctl.init(w);
-			struct InDrop<'a, 'w> {
-				t: &'a Target<'w>,
-				c: &'a Case,
-				ran: &'a std::cell::Cell<u8>,
-			}
-			impl Drop for InDrop<'_, '_> {
-				fn drop(&mut self) {
-					if !std::thread::panicking() {
-						return;
-					}
-					let Some(key) = ThreadKey::get() else {
-						self.ran.set(2);
-						return;
-					};
-					let body = if self.c.panic { Body::PANIC } else { Body::TOUCH };
-					let r = std::panic::catch_unwind(std::panic::AssertUnwindSafe(|| interp::acquire(self.t, self.c.write, self.c.flavour, body, key, 4242)));
-					self.ran.set(if r.is_ok() { 1 } else { 3 });
-				}
-			}
-			let ran = std::cell::Cell::new(0u8);
-			let r = std::panic::catch_unwind(std::panic::AssertUnwindSafe(|| {
-				let _d = InDrop { t: &t, c, ran: &ran };
-				std::panic::resume_unwind(Box::new(rt::UserPanic(1)));
-			}));
-			rt::end_call();
-			assert!(r.is_err());
-			let what = format!("{}::{} #{}", t.shape, c.flavour.api(c.write), t.desc);
-			match ran.get() {
-				1 => {}
-				2 => rt::violation("C11", format!("nested-unwind-no-key|{}", rt::what_key(&what)), format!("inside a destructor during unwinding the thread's key is not obtainable before `{}`", what)),
-				x => rt::violation("C11", format!("nested-unwind-escaped|{}", rt::what_key(&what)), format!("`{}` made by a destructor during unwinding ended abnormally (code {})", what, x)),
-			}
-			let held = ctl.exec.lock().held(0);
-			if !held.is_empty() {
-				rt::violation("C11", format!("leak-after-nested-unwind|{}", rt::what_key(&what)), format!("`{}` ran{} inside a destructor while the thread was unwinding from an earlier panic; afterwards the thread still holds {:?}", what, if c.panic { " and panicked" } else { "" }, held));
-			}
-			if !seq::key_clean() {
-				rt::violation("C11", format!("key-lost-after-nested-unwind|{}", rt::what_key(&what)), format!("after `{}` inside a destructor during unwinding the thread's key is not obtainable", what));
-			}
-		});
+		let o = run_nested_unwind_case(&specs[c.spec], c.write, c.flavour, c.panic, false);
 		(o.violations, o.outcome)
 	});
 	for (c, (vs, outcome)) in cases.iter().zip(&outs) {
@@ -1258,16 +1106,200 @@ pub fn c11_nested_unwind(rep: &mut Report, thorough: bool) {
 		let replay = json!({"kind": "seq-nested-unwind", "spec": specs[c.spec], "write": c.write, "flavour": c.flavour, "panic_in_nested_call": c.panic});
 		for v in vs {
 			let mut v = v.clone();
-			if v.prop == "C05" {
+			if v.prop == "C05" && prop != "C05" {
 				v.key = format!("after-user-panic:C05:{}", v.key);
 				v.prop = "C11";
 			}
-			if v.prop == "C11" {
+			if v.prop == "C11" && prop != "C11" {
+				v.key = format!("nested-unwind:C11:{}", v.key);
+				v.prop = prop;
+			}
+			if v.prop == prop {
 				viol_to(rep, &v, replay.clone());
 			}
 		}
 		if outcome != "ok" {
-			rep.violation(Viol { prop: "C11".into(), key: format!("nested-unwind-{}|{}", outcome.split(':').next().unwrap(), specs[c.spec].shape_key()), detail: format!("nested-unwind case {:?}/{}/{} ended with {}", specs[c.spec].describe(), c.flavour.api(c.write), c.panic, outcome), replay });
+			rep.violation(Viol { prop: prop.into(), key: format!("nested-unwind-{}|{}", outcome.split(':').next().unwrap(), specs[c.spec].shape_key()), detail: format!("nested-unwind case {:?}/{}/{} ended with {}", specs[c.spec].describe(), c.flavour.api(c.write), c.panic, outcome), replay });
 		}
 	}
+}
+
+/// One nested-unwind case (also used by `replay`).
+pub fn run_nested_unwind_case(s: &Spec, write: bool, flavour: Flavour, panic: bool, keep_trace: bool) -> seq::SeqOut<()> {
+	seq::case(Policy::RP, keep_trace, |w, ctl| {
+		let t = w.build(s).expect("duplicate-free");
+		ctl.init(w);
+		struct InDrop<'a, 'w> {
+			t: &'a Target<'w>,
+			write: bool,
+			flavour: Flavour,
+			panic: bool,
+			ran: &'a std::cell::Cell<u8>,
+		}
+		impl Drop for InDrop<'_, '_> {
+			fn drop(&mut self) {
+				if !std::thread::panicking() {
+					return;
+				}
+				let Some(key) = ThreadKey::get() else {
+					self.ran.set(2);
+					return;
+				};
+				let body = if self.panic { Body::PANIC } else { Body::TOUCH };
+				let r = std::panic::catch_unwind(std::panic::AssertUnwindSafe(|| interp::acquire(self.t, self.write, self.flavour, body, key, 4242)));
+				self.ran.set(if r.is_ok() { 1 } else { 3 });
+			}
+		}
+		let ran = std::cell::Cell::new(0u8);
+		let r = std::panic::catch_unwind(std::panic::AssertUnwindSafe(|| {
+			let _d = InDrop { t: &t, write, flavour, panic, ran: &ran };
+			std::panic::resume_unwind(Box::new(rt::UserPanic(1)));
+		}));
+		rt::end_call();
+		assert!(r.is_err());
+		let what = format!("{}::{} #{}", t.shape, flavour.api(write), t.desc);
+		match ran.get() {
+			1 => {}
+			2 => rt::violation("C11", format!("nested-unwind-no-key|{}", rt::what_key(&what)), format!("inside a destructor during unwinding the thread's key is not obtainable before `{}`", what)),
+			x => rt::violation("C11", format!("nested-unwind-escaped|{}", rt::what_key(&what)), format!("`{}` made by a destructor during unwinding ended abnormally (code {})", what, x)),
+		}
+		let held = ctl.exec.lock().held(0);
+		if !held.is_empty() {
+			rt::violation("C11", format!("leak-after-nested-unwind|{}", rt::what_key(&what)), format!("`{}` ran{} inside a destructor while the thread was unwinding from an earlier panic; afterwards the thread still holds {:?}", what, if panic { " and panicked" } else { "" }, held));
+		}
+		if !seq::key_clean() {
+			rt::violation("C11", format!("key-lost-after-nested-unwind|{}", rt::what_key(&what)), format!("after `{}` inside a destructor during unwinding the thread's key is not obtainable", what));
+		}
+	})
+}
+
+/// One C17 case (also used by `replay`).
+pub fn run_nonacq_case(s: &Spec, c: &NaCase, keep_trace: bool) -> seq::SeqOut<usize> {
+seq::case(c.policy, keep_trace, |w, ctl| {
+		let t = w.build(s).expect("probed");
+		ctl.init(w);
+		if c.op == NonAcq::PoisonQueriesPoisoned {
+			poison_everything(&t, w);
+		}
+		let held_leaves: Vec<(u32, u8)> = t.leaves.iter().copied().zip(c.assign.iter().copied()).filter(|(_, v)| *v != 0).collect();
+		let check = |ctl: &SeqCtl, before: u64| {
+			let after = ctl.table_fp();
+			if after != before {
+				rt::violation("C17", format!("nonacq-disturbs|{}|{:?}", s.shape_key(), c.op), format!("{:?} on {} changed the hold state to: {}", c.op, s.describe(), ctl.table_string()));
+			}
+		};
+		match c.holder {
+			Holder::Foreign => {
+				apply_assignment(ctl, &t.leaves, &c.assign);
+				if c.queued_writer {
+					for (l, v) in &held_leaves {
+						if *v == 1 {
+							ctl.queue_writer(*l);
+						}
+					}
+				}
+				let before = ctl.table_fp();
+				ctl.arm_counting();
+				run_nonacq(s, Some(&t), w, c.op);
+				let n = ctl.disarm();
+				check(ctl, before);
+				n
+			}
+			Holder::OwnGuard | Holder::OwnScoped => {
+				let write = c.assign.iter().all(|v| *v == 2);
+				let key = ThreadKey::get().expect("clean");
+				if c.holder == Holder::OwnGuard {
+					let g = if write { t.coll.lock(key) } else { t.coll.read(key) };
+					let before = ctl.table_fp();
+					ctl.arm_counting();
+					run_nonacq(s, Some(&t), w, c.op);
+					rt::begin_call(CallKind::NonAcquiring, false, format!("{}::Debug(guard) #{}", t.shape, t.desc));
+					let d = g.debug();
+					rt::end_call();
+					assert!(!d.is_empty());
+					let n = ctl.disarm();
+					check(ctl, before);
+					drop(g);
+					n
+				} else {
+					let mut cnt = 0;
+					let mut f = |_v: &dyn crate::world::Visit| {
+						let before = ctl.table_fp();
+						ctl.arm_counting();
+						rt::set_call_kind(CallKind::Body);
+						run_nonacq(s, Some(&t), w, c.op);
+						cnt = ctl.disarm();
+						check(ctl, before);
+						rt::begin_call(CallKind::Release, false, "holder".into());
+					};
+					rt::begin_call(CallKind::Acquire, false, "holder".into());
+					t.coll.scoped(write, false, crate::world::KeyArg::Owned(key), &mut f);
+					rt::end_call();
+					cnt
+				}
+			}
+			_ => {
+				// the caller itself holds the non-free leaves through a holder collection (arena leaves only)
+				let write = held_leaves[0].1 == 2;
+				let members: Vec<Spec> = held_leaves.iter().filter_map(|(l, _)| leaf_spec(*l)).collect();
+				let mut uniq = vec![];
+				for m in members {
+					if !uniq.contains(&m) {
+						uniq.push(m);
+					}
+				}
+				let hs = if uniq.iter().all(|m| m.sharable()) || write { Spec::Coll(Kind::Boxed, uniq) } else { return 0 };
+				if !write && !hs.sharable() {
+					return 0;
+				}
+				let Some(ht) = w.build(&hs) else { return 0 };
+				ctl.init(w);
+				// owned units hold all their leaves: skip assignments that split a unit
+				let hl: BTreeSet<u32> = ht.leaves.iter().copied().collect();
+				let want: BTreeSet<u32> = held_leaves.iter().map(|(l, _)| *l).collect();
+				if hl != want {
+					return 0;
+				}
+				let key = ThreadKey::get().expect("clean");
+				let n;
+				match c.holder {
+					Holder::SelfGuard | Holder::SelfLeaked => {
+						let g = if write { ht.coll.lock(key) } else { ht.coll.read(key) };
+						let before = ctl.table_fp();
+						ctl.arm_counting();
+						run_nonacq(s, Some(&t), w, c.op);
+						// Debug of the live guard itself is a non-acquiring operation too
+						rt::begin_call(CallKind::NonAcquiring, false, format!("{}::Debug(guard) #{}", ht.shape, ht.desc));
+						let d = g.debug();
+						rt::end_call();
+						assert!(!d.is_empty());
+						n = ctl.disarm();
+						check(ctl, before);
+						if c.holder == Holder::SelfLeaked {
+							std::mem::forget(g);
+						} else {
+							drop(g);
+						}
+					}
+					_ => {
+						let mut cnt = 0;
+						let mut f = |_v: &dyn crate::world::Visit| {
+							let before = ctl.table_fp();
+							ctl.arm_counting();
+							rt::set_call_kind(CallKind::Body);
+							run_nonacq(s, Some(&t), w, c.op);
+							cnt = ctl.disarm();
+							check(ctl, before);
+							rt::begin_call(CallKind::Release, false, "holder".into());
+						};
+						rt::begin_call(CallKind::Acquire, false, "holder".into());
+						ht.coll.scoped(write, false, crate::world::KeyArg::Owned(key), &mut f);
+						rt::end_call();
+						n = cnt;
+					}
+				}
+				n
+			}
+		}
+	})
 }
